@@ -182,7 +182,11 @@ func checkParse(idx int, o *optSet, spec string) (p parsed, ok bool) {
 		}
 		ks, err, pan := kitParse(o, spec, std)
 		ctx := func() map[string]any {
-			return map[string]any{"options": o.name, "api": api, "spec": spec, "reference": why, "kit_error": fmt.Sprint(err), "panic": fmt.Sprint(pan)}
+			m := map[string]any{"options": o.name, "api": api, "spec": spec, "reference": why, "kit_error": fmt.Sprint(err), "panic": fmt.Sprint(pan)}
+			if parseNote != "" {
+				m["earlier_in_this_case"] = parseNote
+			}
+			return m
 		}
 		if oc == ocUnspec {
 			rec.Count("parse.not_judged_no_documented_meaning", 1)
@@ -675,7 +679,7 @@ var descLayouts = func() []layout {
 // ---------------------------------------------------------------- the plan
 
 type kase struct {
-	kind string // probe table refuse descriptor every lists trans pinned reuse zonenames zonereject seeded longgap
+	kind string // probe table refuse descriptor every lists trans pinned reuse retained pairs zonenames zonereject seeded longgap
 	a, b int
 	zone string
 	tr   trans
@@ -794,6 +798,12 @@ func plan() ([]kase, []string) {
 	for j := 0; j < mon.Pick(320, 6000); j++ {
 		ks = append(ks, kase{kind: "reuse", a: j})
 	}
+	for j := 0; j < mon.Pick(120, 2000); j++ {
+		ks = append(ks, kase{kind: "retained", a: j})
+	}
+	for j := 0; j < mon.Pick(40, 600); j++ {
+		ks = append(ks, kase{kind: "pairs", a: j})
+	}
 	dbNames, doubtful := zoneNameLists()
 	for j := 0; j*zoneNameChunk < len(dbNames); j++ {
 		ks = append(ks, kase{kind: "zonenames", a: j})
@@ -814,11 +824,13 @@ func TestCheck(t *testing.T) {
 	defer rec.Close()
 	hangKnown = mon.Resume() > 0 && mon.Only() < 0
 	rec.Note("rule", "Parse: for every option-set layout (standard/5, seconds/6, seconds-optional/6 and /5, dow-optional/5 and /4, seconds+dow-optional/6 and /5, both without descriptors) and every field it contains, every single term is enumerated: every start token (*, ?, each value, each month/day name in three casings) alone, with every step 0..range+2,100,1000, and combined with every end token and every step (inverted ranges and zero steps are expected refusals); plus seeded lists, descriptors, TZ=/CRON_TZ= prefixes and the refusal table (field counts, min-1/max+1 in every position, non-numeric tokens, unknown names/descriptors/zones, descriptors when disabled). A parse case is one (layout, expression); enumerated without repetition. Its six value sets and the two unrestricted-day flags are compared with a reference parser written from doc.go. "+
-		"Next: one case is (option set, expression, zone, start instant); the expected answer is the earliest matching whole second found by an independent search over the zone's constant-offset periods (Time.ZoneBounds + integer calendar arithmetic on offset-shifted seconds). For every zone of the tier and every offset change 1968-2037: start instants {-2d,-1d,-1h,-1s,0,+1s,+1h} around it and one seeded instant, each with seeded schedules (well-known, built from the wall-clock readings around the change, or from the grammar with sparse day fields); for every transition that removes or repeats local 00:00 or shifts by a non-whole hour additionally schedules with restricted day fields pinned ON the transition day and the three days after it (noon, each minute 00:00-00:29, the readings around the switch), started 1-5 days earlier; SCHEDULE RE-USE: one parsed Schedule object (prefix-less expression, descriptor, @every, some with a TZ prefix as control) answers eight questions in a row whose instants live in different locations (UTC, fixed +05:30 / -03:45, DST zones, time.Local) and then the first question again, every answer judged against the reference for that instant's zone exactly like a fresh parse, the schedule value compared before/after (observed), then a fresh object is asked from 2-4 goroutines at once (this part also runs in an extra -race build that executes only the re-use cases); ZONE NAMES: every name (aliases included) of the zone database time.LoadLocation resolves, with both TZ= and CRON_TZ=, must be accepted and Next must agree with the reference read in time.LoadLocation(name) at three instants; a family of doubtful names (every 1-3 character string over the characters of the two prefixes, doubled prefixes, names with trailing garbage, truncated names, the empty name) must be accepted iff time.LoadLocation accepts the exact text between the first '=' and the first space; plus seeded (zone, instant, schedule) triples, Feb-29 / impossible-date schedules for the five-year horizon, descriptors and @every. Non-trivial = the answer is not simply the next second (the search had to skip at least one second) or no answer exists; distinct = distinct (options, expression, zone, instant).")
+		"Next: one case is (option set, expression, zone, start instant); the expected answer is the earliest matching whole second found by an independent search over the zone's constant-offset periods (Time.ZoneBounds + integer calendar arithmetic on offset-shifted seconds). For every zone of the tier and every offset change 1968-2037: start instants {-2d,-1d,-1h,-1s,0,+1s,+1h} around it and one seeded instant, each with seeded schedules (well-known, built from the wall-clock readings around the change, or from the grammar with sparse day fields); for every transition that removes or repeats local 00:00 or shifts by a non-whole hour additionally schedules with restricted day fields pinned ON the transition day and the three days after it (noon, each minute 00:00-00:29, the readings around the switch), started 1-5 days earlier; SCHEDULE RE-USE: one parsed Schedule object (prefix-less expression, descriptor, @every, some with a TZ prefix as control) answers eight questions in a row whose instants live in different locations (UTC, fixed +05:30 / -03:45, DST zones, time.Local) and then the first question again, every answer judged against the reference for that instant's zone exactly like a fresh parse, the schedule value compared before/after (observed), then a fresh object is asked from 2-4 goroutines at once (this part also runs in an extra -race build that executes only the re-use cases); RETAINED SCHEDULES: every descriptor (bare and with a zone prefix) and six field expressions with seeded unique values are parsed and kept, each answering three questions (judged) right after its parse; then the same texts are parsed again with other zone prefixes and by other parsers (the seven option sets plus descriptor-only, minute|hour, dom|month|dow-optional, seconds-first without dow), each judged on its own; finally every kept schedule is asked its questions again: the answers must not have moved. SAME TEXT, DIFFERENT PARSERS: for every ordered pair (A,B) of the eleven option sets a fresh text (field count accepted by A or by B, seeded unique values) is parsed with A then with B; B's acceptance/refusal, sets and Next are judged for (B, text), A's schedule must still answer as before. ZONE NAMES: every name (aliases included) of the zone database time.LoadLocation resolves, with both TZ= and CRON_TZ=, must be accepted and Next must agree with the reference read in time.LoadLocation(name) at three instants; a family of doubtful names (every 1-3 character string over the characters of the two prefixes, doubled prefixes, names with trailing garbage, truncated names, the empty name) must be accepted iff time.LoadLocation accepts the exact text between the first '=' and the first space; plus seeded (zone, instant, schedule) triples, Feb-29 / impossible-date schedules for the five-year horizon, descriptors and @every. Non-trivial = the answer is not simply the next second (the search had to skip at least one second) or no answer exists; distinct = distinct (options, expression, zone, instant).")
 	rec.Note("require", []string{"parse.ok.sets_equal", "parse.refused.wrong-field-count", "parse.refused.out-of-range", "parse.refused.non-numeric", "parse.refused.inverted-range",
 		"parse.refused.zero-step", "parse.refused.unknown-name", "parse.refused.unknown-descriptor", "parse.refused.unknown-zone", "parse.refused.descriptor-disabled",
 		"next.search_crosses.ordinary", "next.search_crosses.midnight-gap", "next.search_crosses.non-hour-shift", "next.search_crosses.midnight-repeat",
 		"next.search_crosses.off-hour-boundary", "next.search_crosses.multi-hour-shift", "next.skipped_day_probe", "reference.self_checked_by_brute_force", "next.pinned_on_transition_day", "reuse.questions_judged", "reuse.concurrent_questions", "reuse.first_question_repeated", "reuse.every_questions",
+		"retained.schedules_kept", "retained.answers_rechecked", "retained.later_parses_of_the_same_text", "pairs.ordered_pairs", "pairs.A_accepts_B_must_refuse",
+		"pairs.A_refuses_B_must_accept", "pairs.both_accept_with_different_meanings",
 		"zone_names.database_names_checked", "zone_names.database_names_starting_with_a_prefix_character", "zone_names.next_checked_where_offset_differs_from_UTC",
 		"zone_names.doubtful_family.time.LoadLocation_rejects", "zone_names.doubtful_family.time.LoadLocation_accepts",
 		"next.either_day_rule", "next.expected_zero", "next.match_more_than_a_year_away", "next.t_in_other_location", "every.checked", "descriptor.sets_checked"})
@@ -851,6 +863,10 @@ func TestCheck(t *testing.T) {
 			runPinned(idx, k)
 		case "reuse":
 			runReuse(idx, k, zones)
+		case "retained":
+			runRetained(idx, k, zones)
+		case "pairs":
+			runParserPairs(idx, k, zones)
 		case "zonenames":
 			runZoneNames(idx, k)
 		case "zonereject":
@@ -1707,6 +1723,289 @@ func runZoneReject(idx int, k kase) {
 			zoneNameCase(idx, rng, prefix, name, 2)
 		}
 	}
+}
+
+// ---------------------------------------------------------------- retained schedules, parser pairs
+
+// parseNote: what this case did before the parse being judged (put into the replay).
+var parseNote string
+
+func allOptSets() []*optSet {
+	var out []*optSet
+	for i := range optSets {
+		out = append(out, &optSets[i])
+	}
+	for i := range extraOptSets {
+		out = append(out, &extraOptSets[i])
+	}
+	return out
+}
+
+// uniqueTokens: n field tokens with seeded numeric values. Hours avoid the
+// values the table contexts use, so the text has not been parsed earlier in
+// this process by any parser (package-level state in kit would otherwise hide).
+func uniqueTokens(rng *mon.RNG, n int) []string {
+	pos := []int{fMin, fHour, fDom, fMonth, fDow, fSec, fMin, fHour}
+	return tokensFor(rng, pos[:n])
+}
+
+// tokensFor: one token per listed field, each valid for that field (the text
+// is then well-formed for a parser whose fields are pos; another parser reads
+// the same tokens in other positions and may have to refuse them).
+func tokensFor(rng *mon.RNG, pos []int) []string {
+	var out []string
+	for i, fi := range pos {
+		f := &fieldDefs[fi]
+		v := rng.Range(f.min, f.max)
+		w := rng.Range(v, f.max)
+		var t string
+		switch rng.Intn(9) {
+		case 0:
+			t = "*"
+		case 1:
+			t = fmt.Sprintf("%d-%d", v, w)
+		case 2:
+			t = fmt.Sprintf("%d,%d", v, rng.Range(f.min, f.max))
+		case 3:
+			t = fmt.Sprintf("*/%d", rng.Range(2, 13))
+		case 4:
+			t = fmt.Sprintf("%d/%d", v, rng.Range(1, 7))
+		default:
+			t = fmt.Sprint(v)
+		}
+		if i == 1 { // a tag no table row carries: a three-value list
+			t = fmt.Sprintf("%d,%d,%d", v, rng.Range(f.min, f.max), w)
+		}
+		out = append(out, t)
+	}
+	return out
+}
+
+type retained struct {
+	p       parsed
+	qs      []question
+	answers []time.Time
+	ran     []bool
+}
+
+// askRetained: judge the questions right after the parse and remember the answers.
+func askRetained(idx int, p parsed, rng *mon.RNG, zones []string, n int) *retained {
+	r := &retained{p: p}
+	var pinned *zone
+	if p.rs.zone != "" {
+		pinned = getZone(p.rs.zone)
+	}
+	for _, z := range reuseLocations(rng, zones, n) {
+		t := seededInstant(rng, z).In(z.loc)
+		q := question{t, z}
+		if pinned != nil {
+			q.z = pinned
+		}
+		got, pan := callNext(p.ks, t)
+		ran := checkNextOpt(idx, p, q.z, t, nextOpt{have: true, got: got, pan: pan})
+		r.qs, r.answers, r.ran = append(r.qs, q), append(r.answers, got), append(r.ran, ran && pan == nil)
+	}
+	return r
+}
+
+// recheckRetained: the same questions again; the answers must not have moved.
+func recheckRetained(idx int, r *retained, since string) {
+	for i, q := range r.qs {
+		if !r.ran[i] {
+			continue
+		}
+		got, pan := callNext(r.p.ks, q.t)
+		rec.Count("retained.answers_rechecked", 1)
+		if pan != nil || !sameInstant(got, r.answers[i]) {
+			rec.Violation(idx, "next-retained/answer-changed-after-later-parses", fmt.Sprintf("%s options %s: Next(%s) was %s right after the parse; after %s the same Schedule answers %s (panic=%v)",
+				r.p.spec, r.p.o.name, fmtT(q.t, q.t.Location()), fmtT(r.answers[i], q.t.Location()), since, fmtT(got, q.t.Location()), pan),
+				map[string]any{"options": r.p.o.name, "spec": r.p.spec, "t": q.t.Format(time.RFC3339Nano), "t_location": q.t.Location().String(), "zone": q.z.name, "first_answer": fmtT(r.answers[i], q.z.loc), "later_answer": fmtT(got, q.z.loc), "parses_in_between": since})
+		}
+	}
+	if ss, isSpec := r.p.ks.(*cron.SpecSchedule); isSpec && r.p.pristine != nil {
+		if ss.Location != r.p.pristine.Location || !reflect.DeepEqual(*ss, *r.p.pristine) {
+			rec.Count("retained.schedule_value_changed_after_it_was_handed_out(observed,judged only through wrong answers)", 1)
+			rec.Observe(fmt.Sprintf("a retained schedule changed after it was returned: parsed %+v, later %+v (spec %q)", *r.p.pristine, *ss, r.p.spec))
+		} else {
+			rec.Count("retained.schedule_value_unchanged", 1)
+		}
+	}
+}
+
+var descriptorNames = []string{"@yearly", "@annually", "@monthly", "@weekly", "@daily", "@midnight", "@hourly"}
+
+func randomPrefix(rng *mon.RNG, zones []string) string {
+	if rng.Chance(1, 4) {
+		return ""
+	}
+	for {
+		z := getZone(zones[rng.Intn(len(zones))])
+		if z != nil && len(z.skipped) == 0 {
+			return rng.PickStr("TZ=", "CRON_TZ=") + z.name + " "
+		}
+	}
+}
+
+// runRetained: schedules are kept while the same texts are parsed again with
+// other zone prefixes and by other parsers; what they answer must not move.
+func runRetained(idx int, k kase, zones []string) {
+	rng := mon.NewRNG("c04-retained", idx)
+	sets := allOptSets()
+	type entry struct {
+		o    *optSet
+		pre  string
+		body string
+	}
+	var list []entry
+	for _, d := range descriptorNames {
+		o := descLayouts[rng.Intn(len(descLayouts))].o
+		list = append(list, entry{o, "", d}, entry{o, randomPrefix(rng, zones), d})
+	}
+	for i := 0; i < 6; i++ {
+		o := sets[rng.Intn(len(sets))]
+		_, hi := o.counts()
+		if hi == 0 {
+			o = &optSets[0]
+			hi = 5
+		}
+		list = append(list, entry{o, randomPrefix(rng, zones), strings.Join(tokensFor(rng, o.positions()[:hi]), " ")})
+	}
+	for i := len(list) - 1; i > 0; i-- {
+		j := rng.Intn(i + 1)
+		list[i], list[j] = list[j], list[i]
+	}
+	parseNote = ""
+	var kept []*retained
+	byPtr := map[*cron.SpecSchedule]string{}
+	var texts []string
+	for _, e := range list {
+		spec := e.pre + e.body
+		rec.Step(fmt.Sprintf("retained: parse options=%s spec=%q", e.o.name, spec))
+		p, ok := checkParse(idx, e.o, spec)
+		texts = append(texts, e.o.name+":"+spec)
+		if !ok || p.rs.every {
+			continue
+		}
+		if ss, isSpec := p.ks.(*cron.SpecSchedule); isSpec {
+			if prev, dup := byPtr[ss]; dup {
+				rec.Count("retained.same_pointer_returned_by_two_parses(observed)", 1)
+				rec.Observe(fmt.Sprintf("Parse(%q) returned the very pointer Parse(%q) had returned", spec, prev))
+			}
+			byPtr[ss] = spec
+		}
+		kept = append(kept, askRetained(idx, p, rng, zones, 3))
+		rec.Count("retained.schedules_kept", 1)
+	}
+	// the same texts again: other zone prefixes, other parsers
+	var later []string
+	for _, e := range list {
+		for v := 0; v < 3; v++ {
+			o, pre := e.o, randomPrefix(rng, zones)
+			if v > 0 {
+				o = sets[rng.Intn(len(sets))]
+				if v == 2 {
+					pre = e.pre
+				}
+			}
+			spec := pre + e.body
+			parseNote = "earlier in this case, still retained: " + strings.Join(texts, " | ")
+			rec.Step(fmt.Sprintf("retained: later parse options=%s spec=%q", o.name, spec))
+			p, ok := checkParse(idx, o, spec)
+			later = append(later, o.name+":"+spec)
+			rec.Count("retained.later_parses_of_the_same_text", 1)
+			if ok && !p.rs.every {
+				askRetained(idx, p, rng, zones, 1)
+			}
+		}
+	}
+	parseNote = ""
+	since := fmt.Sprintf("%d later parses of the same texts with other prefixes/parsers (%s ...)", len(later), strings.Join(later[:min(4, len(later))], " | "))
+	for _, r := range kept {
+		recheckRetained(idx, r, since)
+	}
+	rec.Case(idx, fmt.Sprintf("retained %d seed%d", k.a, mon.Seed()), true)
+}
+
+// runParserPairs: for every ordered pair (A, B) of option sets a fresh text is
+// parsed with A and then with B. B's verdict and schedule must be those of
+// (B's options, text), whatever A made of the text; A's schedule must still
+// answer as before.
+func runParserPairs(idx int, k kase, zones []string) {
+	rng := mon.NewRNG("c04-pairs", idx)
+	sets := allOptSets()
+	for ai, A := range sets {
+		for bi, B := range sets {
+			if ai == bi {
+				continue
+			}
+			// a field count accepted by A or by B (so: both accept / one refuses), sometimes a descriptor
+			loA, hiA := A.counts()
+			loB, hiB := B.counts()
+			// well-formed for A or for B (with or without that parser's optional field), sometimes a descriptor
+			T, lo := A, loA
+			if rng.Chance(3, 5) {
+				T, lo = B, loB
+			}
+			pos := append([]int(nil), T.positions()...)
+			if lo < len(pos) && rng.Bool() {
+				drop := fSec
+				if T.dowOpt {
+					drop = fDow
+				}
+				kept := pos[:0]
+				for _, f := range pos {
+					if f != drop {
+						kept = append(kept, f)
+					}
+				}
+				pos = kept
+			}
+			_, _ = hiA, hiB
+			var body string
+			switch {
+			case (A.desc || B.desc) && rng.Chance(1, 8):
+				body = descriptorNames[rng.Intn(len(descriptorNames))]
+			case len(pos) == 0:
+				body = strings.Join(uniqueTokens(rng, rng.PickInt(2, 5)), " ")
+			default:
+				body = strings.Join(tokensFor(rng, pos), " ")
+			}
+			spec := randomPrefix(rng, zones) + body
+			parseNote = ""
+			rec.Step(fmt.Sprintf("pair A=%s B=%s spec=%q", A.name, B.name, spec))
+			pA, okA := checkParse(idx, A, spec)
+			var keptA *retained
+			if okA && !pA.rs.every {
+				keptA = askRetained(idx, pA, rng, zones, 2)
+			}
+			parseNote = fmt.Sprintf("the same text was parsed just before with options %s", A.name)
+			pB, okB := checkParse(idx, B, spec)
+			parseNote = ""
+			_, ocA, _ := refParse(*A, spec)
+			_, ocB, _ := refParse(*B, spec)
+			switch {
+			case ocA == ocOK && ocB == ocRefuse:
+				rec.Count("pairs.A_accepts_B_must_refuse", 1)
+			case ocA == ocRefuse && ocB == ocOK:
+				rec.Count("pairs.A_refuses_B_must_accept", 1)
+			case ocA == ocOK && ocB == ocOK:
+				rec.Count("pairs.both_accept", 1)
+				if okA && okB && pA.rs.set != pB.rs.set {
+					rec.Count("pairs.both_accept_with_different_meanings", 1)
+				}
+			case ocA == ocRefuse && ocB == ocRefuse:
+				rec.Count("pairs.both_refuse", 1)
+			}
+			if okB && !pB.rs.every {
+				askRetained(idx, pB, rng, zones, 2)
+			}
+			if keptA != nil {
+				recheckRetained(idx, keptA, fmt.Sprintf("the same text was parsed with options %s", B.name))
+			}
+			rec.Count("pairs.ordered_pairs", 1)
+		}
+	}
+	rec.Case(idx, fmt.Sprintf("pairs %d seed%d", k.a, mon.Seed()), true)
 }
 
 func runSeeded(idx int, k kase) {
